@@ -33,13 +33,13 @@
 (* comes back with another value.  They exist so that a rejected round trip *)
 (* can be attributed (C01Why); the verdict is always taken with tol = {}.   *)
 (*                                                                         *)
-(* Both relations are coinductive on graphs; Fuel bounds the unfolding     *)
-(* (deeper than any two graphs of the enumerated sizes can differ).        *)
+(* Both relations are coinductive on graphs (greatest fixed point): a pair *)
+(* of nodes that is already being compared on the current path is assumed  *)
+(* related, so cyclic values are compared by their unfolding.              *)
 (***************************************************************************)
 EXTENDS Integers, Sequences, FiniteSets, TLC
 
 Has(r, f) == f \in DOMAIN r
-Fuel == 24
 
 ---------------------------------------------------------------------------
 (* Part 1: recogniser *)
@@ -168,8 +168,7 @@ TimeW(x, y) ==
           \/ y.date = "" /\ y.time = tm /\ d = "19700101"               \* time only
 
 RECURSIVE WM(_, _, _, _, _)
-WM(gx, x, gw, y, fuel) ==
-    IF fuel = 0 THEN TRUE ELSE
+WM(gx, x, gw, y, asm) ==
     CASE x.k = "nil" -> y.k = "nil"
       [] x.k = "bool" -> y.k = "bool" /\ y.v = x.v
       [] x.k = "int" -> y.k = "int" /\ y.v = x.v
@@ -190,35 +189,38 @@ WM(gx, x, gw, y, fuel) ==
       [] x.k = "guid" -> y.k = "guid" /\ y.v = x.v
       [] x.k = "error" -> y.k = "err" /\ y.s = x.s
       [] x.k = "node" ->
-            LET nx == gx[x.id + 1] IN
+            \* coinduction: a pair of nodes already under comparison on this path is assumed related
+            IF y.k = "node" /\ <<x.id, y.id>> \in asm THEN TRUE ELSE
+            LET nx == gx[x.id + 1]
+                fuel == IF y.k = "node" THEN asm \cup {<<x.id, y.id>>} ELSE asm IN
             CASE nx.k = "list" ->
                     IF Has(nx, "isnil") /\ nx.isnil /\ y.k = "nil" THEN TRUE
                     ELSE /\ y.k = "node" /\ gw[y.id].k = "list"
                          /\ Len(gw[y.id].items) = Len(nx.items)
-                         /\ \A i \in 1..Len(nx.items) : WM(gx, nx.items[i], gw, gw[y.id].items[i], fuel - 1)
+                         /\ \A i \in 1..Len(nx.items) : WM(gx, nx.items[i], gw, gw[y.id].items[i], fuel)
               [] nx.k = "map" ->
                     IF nx.isnil /\ y.k = "nil" THEN TRUE
                     ELSE /\ y.k = "node" /\ gw[y.id].k = "map"
                          /\ Len(gw[y.id].ents) = Len(nx.ents)
                          /\ \A i \in 1..Len(nx.ents) : \E j \in 1..Len(gw[y.id].ents) :
-                               /\ WM(gx, nx.ents[i][1], gw, gw[y.id].ents[j][1], fuel - 1)
-                               /\ WM(gx, nx.ents[i][2], gw, gw[y.id].ents[j][2], fuel - 1)
+                               /\ WM(gx, nx.ents[i][1], gw, gw[y.id].ents[j][1], fuel)
+                               /\ WM(gx, nx.ents[i][2], gw, gw[y.id].ents[j][2], fuel)
               [] nx.k = "struct" ->
                     IF nx.name # ""
                     THEN /\ y.k = "node" /\ gw[y.id].k = "obj" /\ gw[y.id].name = nx.hname
                          /\ Len(gw[y.id].fields) = Len(nx.fields)
                          /\ \A i \in 1..Len(nx.fields) :
                                /\ gw[y.id].fields[i][1] = nx.fields[i][1]
-                               /\ WM(gx, nx.fields[i][2], gw, gw[y.id].fields[i][2], fuel - 1)
+                               /\ WM(gx, nx.fields[i][2], gw, gw[y.id].fields[i][2], fuel)
                     ELSE /\ y.k = "node" /\ gw[y.id].k = "map"      \* anonymous struct: a map keyed by field name
                          /\ Len(gw[y.id].ents) = Len(nx.fields)
                          /\ \A i \in 1..Len(nx.fields) : \E j \in 1..Len(gw[y.id].ents) :
                                /\ gw[y.id].ents[j][1].k = "str" /\ gw[y.id].ents[j][1].s = nx.fields[i][1]
-                               /\ WM(gx, nx.fields[i][2], gw, gw[y.id].ents[j][2], fuel - 1)
+                               /\ WM(gx, nx.fields[i][2], gw, gw[y.id].ents[j][2], fuel)
               [] OTHER -> FALSE
       [] OTHER -> FALSE
 
-WireMatch(ingraph, parsed, i) == WM(ingraph.nodes, ingraph.root, parsed.nodes, parsed.vals[i], Fuel)
+WireMatch(ingraph, parsed, i) == WM(ingraph.nodes, ingraph.root, parsed.nodes, parsed.vals[i], {})
 
 \* every container reached through a Go pointer more than once is written once (later occurrences are references)
 WrittenOnce(ingraph, parsed) == Len(parsed.nodes) <= Len(ingraph.nodes) + ingraph.extra
@@ -241,8 +243,7 @@ IsEmptyish(g, v) ==   \* nil, or an empty container / byte string
 
 FieldsAsEnts(n) == [i \in 1..Len(n.fields) |-> <<[k |-> "str", s |-> n.fields[i][1], valid |-> TRUE, u16 |-> 0], n.fields[i][2]>>]
 
-SV(gx, x, gy, y, fuel, tol) ==
-    IF fuel = 0 THEN TRUE ELSE
+SV(gx, x, gy, y, asm, tol) ==
     IF IsEmptyish(gx, x) /\ IsEmptyish(gy, y) /\ (x.k = "nil" \/ y.k = "nil" \/ x.k = y.k) THEN TRUE ELSE
     CASE x.k = "nil" -> y.k = "nil"
       [] x.k = "bool" -> y.k = "bool" /\ y.v = x.v
@@ -270,25 +271,27 @@ SV(gx, x, gy, y, fuel, tol) ==
       [] x.k = "error" -> y.k = "error" /\ y.s = x.s
       [] x.k = "node" ->
             IF y.k # "node" THEN FALSE ELSE
+            IF <<x.id, y.id>> \in asm THEN TRUE ELSE
             LET nx == Node(gx, x)
-                ny == Node(gy, y) IN
+                ny == Node(gy, y)
+                fuel == asm \cup {<<x.id, y.id>>} IN
             CASE nx.k = "list" /\ ny.k = "list" ->
                     /\ Len(nx.items) = Len(ny.items)
-                    /\ \A i \in 1..Len(nx.items) : SV(gx, nx.items[i], gy, ny.items[i], fuel - 1, tol)
+                    /\ \A i \in 1..Len(nx.items) : SV(gx, nx.items[i], gy, ny.items[i], fuel, tol)
               [] nx.k \in {"map", "struct"} /\ ny.k \in {"map", "struct"} ->
                     IF nx.k = "struct" /\ ny.k = "struct"
                     THEN /\ nx.name = ny.name /\ Len(nx.fields) = Len(ny.fields)
                          /\ \A i \in 1..Len(nx.fields) : /\ nx.fields[i][1] = ny.fields[i][1]
-                                                         /\ SV(gx, nx.fields[i][2], gy, ny.fields[i][2], fuel - 1, tol)
+                                                         /\ SV(gx, nx.fields[i][2], gy, ny.fields[i][2], fuel, tol)
                     ELSE LET ex == IF nx.k = "struct" THEN FieldsAsEnts(nx) ELSE nx.ents
                              ey == IF ny.k = "struct" THEN FieldsAsEnts(ny) ELSE ny.ents IN
                          /\ Len(ex) = Len(ey)
                          /\ \A i \in 1..Len(ex) : \E j \in 1..Len(ey) :
-                               /\ SV(gx, ex[i][1], gy, ey[j][1], fuel - 1, tol) /\ SV(gx, ex[i][2], gy, ey[j][2], fuel - 1, tol)
+                               /\ SV(gx, ex[i][1], gy, ey[j][1], fuel, tol) /\ SV(gx, ex[i][2], gy, ey[j][2], fuel, tol)
               [] OTHER -> FALSE
       [] OTHER -> FALSE
 
-SameValue(ingraph, outgraph, tol) == SV(ingraph.nodes, ingraph.root, outgraph.nodes, outgraph.root, Fuel, tol)
+SameValue(ingraph, outgraph, tol) == SV(ingraph.nodes, ingraph.root, outgraph.nodes, outgraph.root, {}, tol)
 
 ---------------------------------------------------------------------------
 (* judgements over one recorded round trip *)
@@ -322,6 +325,19 @@ C01Why(e) ==
     ELSE IF C01Tol(e, {"bigfloat-precision"}) THEN "bigfloat-precision"
     ELSE IF C01Tol(e, {"long-wrap"}) THEN "long-wrap"
     ELSE "mismatch"
+
+\* C02: reference mode on shared and cyclic graphs
+C02Why(e) ==
+    IF ~EncodedOK(e) THEN "encode"
+    ELSE LET p == Parse(e.toks, e.nvals) IN
+         IF ~p.ok THEN "malformed: " \o p.why
+         ELSE IF ~WireMatch(e.in, p, 1) THEN "a reference does not land on the item the encoder meant"
+         ELSE IF ~WrittenOnce(e.in, p) THEN "an object reached through pointers is written more than once"
+         ELSE IF e.decpanic # "none" THEN "decpanic"
+         ELSE IF e.outfault # "none" THEN "wild-pointer"
+         ELSE IF e.decerr # "none" /\ ~e.haserr THEN "decerr"
+         ELSE IF e.haserr THEN ""
+         ELSE IF SameValue(e.in, e.out, {}) THEN "" ELSE "decoded graph has a different unfolding"
 
 C03Why(e) ==
     IF ~EncodedOK(e) THEN "encode"
